@@ -177,6 +177,64 @@ pub fn check_pdf(c: &PdfCase, obs: &mut Obs) -> Verdict {
     Verdict::Pass
 }
 
+// ---------- converter, in process ----------
+
+const RULE_CONV: &str = "generated Schwab exports squeezed onto 1-4 dates (many same-date rows of several symbols: trades, dividends, withholdings with and without dividend, unknown actions): 12 in-process conversions (each with fresh hash seeds) must give identical DSL (minus the '# Converted:' line), warnings and skipped count; non-trivial = >=2 symbols share a date; distinct by JSON hash";
+
+fn strat_conv(t: Tier) -> BoxedStrategy<crate::props::conv::Case18> {
+    (crate::props::conv::strat18_pub(t), 1u16..5)
+        .prop_map(|(mut c, ndays)| {
+            for r in c.rows.iter_mut() {
+                r.off %= ndays;
+                r.as_of_lag = None;
+            }
+            c
+        })
+        .boxed()
+}
+
+pub fn check_conv(c: &crate::props::conv::Case18, obs: &mut Obs) -> Verdict {
+    use cgt_converter::schwab::{SchwabConverter, SchwabInput};
+    use cgt_converter::BrokerConverter;
+    let (tx, awards) = crate::props::conv::export_texts(c);
+    obs.hash = crate::led::hash_str(&tx);
+    let mut by_date: std::collections::BTreeMap<u16, std::collections::BTreeSet<u8>> = Default::default();
+    for r in &c.rows {
+        by_date.entry(r.off).or_default().insert(r.sym % 5);
+    }
+    obs.nontrivial = by_date.values().any(|s| s.len() >= 2);
+    if obs.sample.is_none() {
+        obs.sample = Some(serde_json::json!({"rows": c.rows.len(), "dates": by_date.len()}));
+    }
+    let input = SchwabInput { transactions_json: tx, awards_json: Some(awards) };
+    let once = || -> Result<(String, Vec<String>, usize), String> {
+        match tool::guarded(|| SchwabConverter::new().convert(&input)) {
+            Ok(Ok(o)) => Ok((o.cgt_content.lines().filter(|l| !l.starts_with("# Converted:")).collect::<Vec<_>>().join("\n"), o.warnings, o.skipped_count)),
+            Ok(Err(e)) => Err(format!("ERR {e}")),
+            Err(p) => Err(format!("PANIC {} at {}", p.msg, p.loc)),
+        }
+    };
+    let first = once();
+    if let Err(e) = &first {
+        if e.starts_with("PANIC") {
+            return Verdict::fail(e.clone());
+        }
+    }
+    for i in 0..11 {
+        let again = once();
+        if again != first {
+            let detail = match (&first, &again) {
+                (Ok(a), Ok(b)) => {
+                    if a.0 != b.0 { first_diff(&a.0, &b.0) } else if a.1 != b.1 { format!("warnings {:?} vs {:?}", a.1, b.1) } else { format!("skipped {} vs {}", a.2, b.2) }
+                }
+                (a, b) => format!("{a:?} vs {b:?}"),
+            };
+            return Verdict::fail(format!("converting the same export twice gives different output (repetition {i}): {detail}"));
+        }
+    }
+    Verdict::Pass
+}
+
 // ---------- processes ----------
 
 #[derive(Clone, Debug, Serialize, Deserialize)]
@@ -259,6 +317,11 @@ fn run(ctx: &Ctx) {
     if !ctx.run_prop("pdf_text_runs", RULE_PDF, ctx.cases(6, 600), strat_pdf, check_pdf) {
         return;
     }
+    ctx.shrink_iters.store(2000, std::sync::atomic::Ordering::Relaxed);
+    if !ctx.run_prop("converter_repetition", RULE_CONV, ctx.cases(300, 30_000), strat_conv, check_conv) {
+        return;
+    }
+    ctx.shrink_iters.store(100, std::sync::atomic::Ordering::Relaxed);
     match ctx.tier {
         Tier::Quick => ctx.run_prop("fresh_processes", RULE_PROC, ctx.cases(2, 100), strat_proc, check_proc_quick),
         Tier::Thorough => ctx.run_prop("fresh_processes", RULE_PROC, ctx.cases(2, 100), strat_proc, check_proc_thorough),
@@ -269,6 +332,7 @@ fn replay(name: &str, case: &Value) -> Option<Verdict> {
     match name {
         "in_process_repetition" => Some(replay_case::<GenLedger, _>(case, check).unwrap_or_else(Verdict::Fail)),
         "pdf_text_runs" => Some(replay_case::<PdfCase, _>(case, check_pdf).unwrap_or_else(Verdict::Fail)),
+        "converter_repetition" => Some(replay_case::<crate::props::conv::Case18, _>(case, check_conv).unwrap_or_else(Verdict::Fail)),
         "fresh_processes" => Some(replay_case::<ProcCase, _>(case, check_proc_thorough).unwrap_or_else(Verdict::Fail)),
         _ => None,
     }
